@@ -1135,6 +1135,130 @@ def P8(F, rep, R, ws):
                if problem is None else '%s: %s' % (short(w['fn']['name']), problem), nontrivial=True)
 
 
+def P9(F, rep, R):
+    """containers leave the stream through dropOldData() only: no other operation (read, write, seekg, ...) pops from the list, neither
+    directly nor through a private helper.  A read that releases what it has just passed takes away the bytes a following seekg(-k)
+    returns to (the decoder peeks an object header and steps back)"""
+    cls = R.stages.get('m_uncompressedFile')
+    rep.count('P9')
+    bad = []
+    n = 0
+    for fn in methods_of(F, cls):
+        if fn.get('kind') in ('ctor', 'dtor') or fn.get('access') == 2 or fn['simple'] == 'dropOldData':
+            continue
+        n += 1
+        for x in flat_nodes(F, fn):
+            if x.get('k') == 'Call' and x.get('fn') in ('pop_front', 'pop_back', 'erase', 'clear', 'pop') and (member_path(x.get('obj')) or (None,))[-1] == 'm_data':
+                bad.append('%s (line %s)' % (short(fn['name']), x.get('l')))
+    rep.ob('P9', 'who-may-drop', not bad and n > 5, None,
+           'only dropOldData() removes containers from the stream (%d other operations looked at, helpers included)' % n if not bad else
+           'containers are removed outside dropOldData(): %s - bytes the caller has not released are gone when it steps back' % ', '.join(sorted(set(bad))[:3]), nontrivial=True)
+
+
+def K14(F, rep, R, FL):
+    """read-mode close(): a stage is aborted only after its producer has been told to stop.  abort() switches the back-pressure wait off for
+    good; an inflating thread that is still running behind it (its flag not cleared, its input not closed) reads the rest of the file into
+    memory before the join returns"""
+    close = R.close_fn
+    rep.count('K14')
+    bad = None
+    n = 0
+    for evs, out in FL.paths(close, follow=()):
+        taken = [R._mode_of_cond(e['n']) for e in evs if e['ev'] == 'branch' and e['taken'] and R._mode_of_cond(e['n'])]
+        if 'read' not in taken or out not in ('normal', 'return'):
+            continue
+        ab = [i for i, e in enumerate(evs) if e['ev'] == 'call' and e['n'].get('fn') == 'abort' and recv_root_(e['n']) == 'm_uncompressedFile']
+        if not ab:
+            continue
+        n += 1
+        stop = [i for i, e in enumerate(evs[:ab[0]]) if e['ev'] == 'call' and e['n'].get('fn') == 'close' and recv_root_(e['n']) == 'm_compressedFile']
+        flag = [i for i, e in enumerate(evs[:ab[0]]) if e['ev'] == 'assign' and _assigned_field(e['n']) == 'm_compressedFileThreadRunning']
+        if not stop or not flag:
+            bad = ('m_uncompressedFile.abort() (line %s) comes before %s' % (evs[ab[0]].get('l'),
+                   ' and '.join(x for x, y in (('m_compressedFile.close()', stop), ('m_compressedFileThreadRunning = false', flag)) if not y)), evs)
+            break
+    rep.ob('K14', 'close|read|producer-stopped-first', bad is None and n > 0, rep.fn_site(close),
+           'close() [read]: the inflating thread is stopped (flag cleared, compressed file closed) before the stream it fills is aborted (%d paths)' % n
+           if bad is None and n > 0 else 'close() [read]: %s - the inflating thread runs on without back-pressure and buffers the rest of the file' %
+           (bad[0] if bad else 'no aborting path'), nontrivial=True)
+
+
+def recv_root_(call):
+    p = member_path(call.get('obj')) if call.get('obj') is not None else None
+    return field_root(p) if p else None
+
+
+def Q45(F, rep, R, FL, ws):
+    """Q4: the reader of the queue is released at the declared end by the bare comparison of the get count with the declared size
+    (m_tellg >= m_fileSize) - a difference, a helper with unsigned arithmetic or a sentinel test changes for which declared sizes the reader
+    is released; Q5: write() enqueues its argument on every path (an object that is deleted or dropped instead is never delivered)"""
+    cls = R.stages.get('m_readWriteQueue')
+    rd = [w for w in ws if w['cls'] == cls and w['fn']['simple'] == 'read']
+    rep.count('Q4')
+    ok = False
+    seen = []
+    for w in rd:
+        for d in w['disjuncts']:
+            sx = expr_str(d).replace('this.', '')
+            seen.append(sx)
+            if sx in ('(m_tellg >= m_fileSize)', '(m_fileSize <= m_tellg)'):
+                ok = True
+    rep.ob('Q4', 'read|eof-atom', ok, rep.fn_site(rd[0]['fn'], rd[0]['line']) if rd else None,
+           'ObjectQueue::read is released at the declared end by m_tellg >= m_fileSize' if ok else
+           'ObjectQueue::read: no disjunct of the wait predicate is m_tellg >= m_fileSize (%s): for some declared sizes (smaller than the get count, 0) '
+           'the reader is never released' % ' || '.join(seen), nontrivial=True)
+    wr = [f for f in methods_of(F, cls) if f['simple'] == 'write']
+    for fn in wr:
+        rep.count('Q5')
+        pid = fn['params'][0]['id'] if fn.get('params') else None
+        bad = None
+        n = 0
+        for evs, out in FL.paths(fn, follow=()):
+            if out not in ('normal', 'return'):
+                continue
+            n += 1
+            push = [e for e in evs if e['ev'] == 'call' and e['n'].get('fn') in ('push', 'emplace', 'push_back') and
+                    (member_path(e['n'].get('obj')) or (None,))[-1] == 'm_queue' and any(_lid(a) == pid for a in e['n'].get('args', []))]
+            dele = [e for e in evs if e['ev'] == 'delete' and _lid(e['n'].get('sub')) == pid]
+            if not push or dele:
+                bad = evs
+                break
+        rep.ob('Q5', 'write|enqueues-always', bad is None and n > 0, rep.fn_site(fn),
+               'ObjectQueue::write enqueues its argument on each of its %d paths' % n if bad is None and n > 0 else
+               'ObjectQueue::write can return without enqueuing its argument (%s): the object is never delivered' % (fmt_events(bad, limit=10) if bad else 'no path'),
+               nontrivial=True)
+
+
+def _lid(e):
+    e = strip_all_casts(e) if e is not None else None
+    return e.get('id') if isinstance(e, dict) and e.get('k') == 'Ref' else None
+
+
+def K5v(F, rep, R):
+    """the end of stream a producer declares is the stage's own put position: every setFileSize() that File issues on a stage passes that
+    stage's tellp().  A count kept on the side (declared sizes, objects seen) can run ahead of what was really delivered - then the
+    consumer waits for data behind the last byte that will ever arrive"""
+    n = 0
+    for fn in methods_of(F, FILE):
+        for x in walk(fn['body']):
+            if x.get('k') == 'Call' and x.get('fn') == 'setFileSize' and recv_root_(x) in R.stages:
+                st = recv_root_(x)
+                n += 1
+                rep.count('K5v')
+                a = strip_all_casts(deep_resolve(x['args'][0], fn)) if x.get('args') else None
+                while isinstance(a, dict) and a.get('k') == 'Construct' and len(a.get('args', [])) == 1:
+                    a = strip_all_casts(a['args'][0])
+                while isinstance(a, dict) and a.get('k') == 'Call' and str(a.get('fn') or '').startswith('operator ') and a.get('obj') is not None:
+                    a = strip_all_casts(a['obj'])      # conversion operator of std::streampos
+                ok = isinstance(a, dict) and a.get('k') == 'Call' and a.get('fn') == 'tellp' and recv_root_(a) == st
+                rep.ob('K5v', '%s|%s@%d' % (short(fn['name']), st, n), ok, rep.fn_site(fn, x.get('l')),
+                       '%s declares the end of %s at its put position' % (short(fn['name']), st) if ok else
+                       '%s declares the end of %s at [%s], not at %s.tellp(): an end beyond the data that will arrive blocks the consumer for good, one in front '
+                       'of it loses the tail' % (short(fn['name']), st, expr_str(x['args'][0]) if x.get('args') else '?', st), nontrivial=True)
+    if n < 3:
+        raise AnalysisBroken('K5v: expected the end-of-stream declarations of File (4 today), found %d' % n)
+
+
 def P6(F, rep, R, FL):
     """the get position never moves back behind released data: in the functions that consume from the stream, no seekg by a possibly
     negative distance follows dropOldData() on the same path (dropOldData releases the front container as soon as the get position has
@@ -1572,7 +1696,7 @@ def P(F, rep, R, FL, ws):
     cls = R.stages[st]
     d = [f for f in methods_of(F, cls) if f['simple'] == 'dropOldData']
     rep.count('P3')
-    pops = [n for f in d for n in walk(f['body']) if n.get('k') == 'Call' and n.get('fn') in ('pop_front', 'pop', 'erase') and
+    pops = [n for f in d for n in flat_nodes(F, f) if n.get('k') == 'Call' and n.get('fn') in ('pop_front', 'pop', 'erase') and
             (member_path(n.get('obj')) or (None,))[-1] == 'm_data']
     rep.ob('P3', 'dropOldData|pops', bool(pops), rep.fn_site(d[0]) if d else None,
            'UncompressedFile::dropOldData removes the front container (m_data.pop_front)' if pops else 'dropOldData never removes anything', nontrivial=True)
@@ -1582,10 +1706,34 @@ def P(F, rep, R, FL, ws):
     rep.count('P7')
     looped = False
     for f in d:
-        for lp in walk(f['body']):
+        for lp in flat_nodes(F, f):
             if lp.get('k') in ('While', 'For', 'Do') and any(any(x is pp for x in walk(lp.get('body') or {})) for pp in pops):
                 looped = True
-    rep.ob('P7', 'dropOldData|all-consumed', looped, rep.fn_site(d[0]) if d else None,
-           'UncompressedFile::dropOldData releases every container behind the get position (the pop sits in a loop)' if looped else
+    # ... and the loop stops for two reasons only: the list is empty, or the front container is not wholly consumed.  Any other way out after
+    # a pop (a budget, a count, "one per call") leaves consumed containers behind
+    early = None
+    if looped:
+        for f in d:
+            for evs, out in FL.paths(f, follow=(), unroll=2):
+                pi = [i for i, e in enumerate(evs) if e['ev'] == 'call' and e['n'].get('fn') in ('pop_front', 'pop', 'erase') and
+                      (member_path(e['n'].get('obj')) or (None,))[-1] == 'm_data']
+                if not pi:
+                    continue
+                brs = [e for e in evs[pi[-1]:] if e['ev'] == 'branch']
+                if not brs:
+                    early = 'leaves right after a pop without looking at the next container (line %s)' % evs[pi[-1]].get('l')
+                    break
+                last = brs[-1]
+                names = {x.get('name') for x in walk(deep_resolve(last['n'], f)) if x.get('k') == 'Member'} | \
+                    {x.get('fn') for x in walk(last['n']) if x.get('k') == 'Call'}
+                if not ({'m_tellg'} & names or {'empty', 'size'} & names or any('operator bool' in str(n_) for n_ in names)):
+                    early = 'stops after a pop on [%s] (line %s), which is neither "list empty" nor "front container not consumed"' % (expr_str(last['n']), last.get('l'))
+                    break
+            if early:
+                break
+    rep.ob('P7', 'dropOldData|all-consumed', looped and early is None, rep.fn_site(d[0]) if d else None,
+           'UncompressedFile::dropOldData releases every container behind the get position (the pop sits in a loop)' if looped and early is None else
+           'UncompressedFile::dropOldData %s: consumed containers stay in the list - buffered data grows with the number of steps that pass more than one container'
+           % early if looped else
            'UncompressedFile::dropOldData releases at most one container per call while one consumer step (an object or request larger than a '
            'container) passes several: the containers passed in excess stay in the list - buffered data grows with the number of such objects', nontrivial=True)
